@@ -3982,8 +3982,18 @@ coap_dispatch(coap_context_t *context, coap_session_t *session,
             session->recipient_ctx->initial_state == 0) {
           coap_log_warn("OSCORE: PDU could not be decrypted\n");
         }
-        coap_delete_node_lkd(sent);
-        return;
+        if (sent && sent->pdu->type == COAP_MESSAGE_CON &&
+            session->con_active) {
+          /* The Confirmable that was in flight is no longer being tracked */
+          session->con_active--;
+          if (session->state == COAP_SESSION_STATE_ESTABLISHED)
+            /* Flush out any entries on session->delayqueue */
+            coap_session_connected(session);
+        }
+        /* Report the message that is no longer tracked */
+        if (sent)
+          packet_is_bad = 1;
+        goto cleanup;
       } else {
         session->oscore_encryption = 1;
         pdu = dec_pdu;
